@@ -160,6 +160,10 @@ def gen_history(rng, cfg, g):
         elif x < 0.67:
             lines.append(g.sync_frame())
         elif x < 0.72:
+            if rng.random() < 0.4:
+                # the application reacts to the end of that transfer - also when the end is the reset itself - with an API call from
+                # inside the completion callback: it registers an emergency, or asks for the next transfer on the same client
+                lines.append(rng.choice(["csdocbemcy", "csdocbreq 50"]))
             lines.append(rng.choice(["csdoup 0 2000 0 %d %d" % (rng.choice([2, 4, 30]), rng.choice([5, 1000])),
                                      "csdodown 0 2000 1 %s %d" % (gen.rand_bytes(rng, rng.choice([2, 20])).hex(), rng.choice([5, 1000]))]))
             interesting = True
@@ -303,6 +307,7 @@ def run_pair(res, exe, rng, first, sched=False):
             res.violation("c20/bootup", "reset emitted %r, reference one boot-up frame" % [("%x" % x[1], x[3].hex()) for x in boot], sim=a)
             return
         baseA = a.tick
+        a.cmd("appclear")               # reactions the scripted application had planned for a callback that never came are its own state, not the node's
         # the background loop goes on: timer processing right after the reset must find nothing of the old communication
         ev = a.cmd("tproc")
         msg = app.feed(ev, "P")
